@@ -491,7 +491,7 @@ func runC06(r *fw.Run) {
 	})
 	r.Count("byte_level_inputs", int64(len(texts)))
 	if r.Thorough {
-		runIDLFuzz(r, "C06", "FuzzIDLOracle", 3000000)
+		runIDLFuzz(r, "C06", "FuzzIDLOracle", 12000000)
 	}
 }
 
@@ -686,7 +686,7 @@ func runC09(r *fw.Run) {
 	// 6. random bytes and random token soup
 	in = nil
 	alpha := append([]string{}, mutAlphabet...)
-	for i := 0; i < r.Pick(20000, 400000); i++ {
+	for i := 0; i < r.Pick(20000, 1200000); i++ {
 		n := rng.Intn(40)
 		if i%50 == 0 {
 			n = rng.Intn(65536)
@@ -709,7 +709,7 @@ func runC09(r *fw.Run) {
 	}
 	run("random", in)
 	if r.Thorough {
-		runIDLFuzz(r, "C09", "FuzzIDLTotal", 3000000)
+		runIDLFuzz(r, "C09", "FuzzIDLTotal", 12000000)
 	}
 }
 
